@@ -374,6 +374,15 @@ type failGroup struct {
 
 // Flush emits the grouped violations collected by ReportResult.
 func (r *Rules) Flush() {
+	// root causes first: instruction-level obligations before the
+	// post-conditions that fail as a consequence
+	rank := func(key string) int {
+		if r.groups[key].first.Class == ClsPost {
+			return 1
+		}
+		return 0
+	}
+	sort.SliceStable(r.order, func(i, j int) bool { return rank(r.order[i]) < rank(r.order[j]) })
 	for _, key := range r.order {
 		g := r.groups[key]
 		o := g.first
